@@ -590,6 +590,34 @@ def run(ctx) -> None:
                                                                                   for a in adds for x in n.body)]
     inner = ref_loops[-1] if ref_loops else None
     allowed_ids = {n.id for (n, _) in t_notnone + t_pos + t_notagg}
+    # ... and the loop that registers them walks the component's OWN reference list on every path: a list that is emptied or filtered for
+    # some components (seed C03-13: for a component that declares `replicate` itself) leaves their references to replicated producers
+    # un-suffixed in every copy
+    if inner is not None:
+        def own_refs(e: ast.AST) -> bool:
+            if isinstance(e, ast.Call) and call_name(e) in ("list", "tuple", "sorted") and len(e.args) == 1:
+                return own_refs(e.args[0])
+            if isinstance(e, ast.BoolOp) and isinstance(e.op, ast.Or):
+                return own_refs(e.values[0]) and all(isinstance(v, (ast.List, ast.Tuple)) and not v.elts for v in e.values[1:])
+            if isinstance(e, ast.Call) and last_attr(e) == "get" and e.args and isinstance(e.args[0], ast.Constant) and e.args[0].value == "references":
+                return True
+            return isinstance(e, ast.Subscript) and isinstance(e.slice, ast.Constant) and e.slice.value == "references"
+        bad = []
+        if isinstance(inner.iter, ast.Name):
+            at = [n for n in cfg.nodes if n.kind == "for" and n.ast is inner]
+            ctx.require(bool(at), "anchor missing: the CFG node of the reference loop of apply_replicate")
+            for d in flow.reaching_defs(cfg, inner.iter.id).get(at[0].id, frozenset()):
+                v = flow.def_value(cfg, d, inner.iter.id) if d >= 0 else None
+                if v is None or not own_refs(v):
+                    bad.append(v if v is not None else inner.iter)
+        elif not own_refs(inner.iter):
+            bad.append(inner.iter)
+        ctx.ob("C03.R8-every-replicated-reference-registered", bad[0] if bad else inner, not bad,
+               "the registration loop walks the component's own 'references' on every path" if not bad else
+               "the references that apply_replicate examines can be %s instead of the component's own list: for those components no reference to a "
+               "replicated producer is registered, so each copy keeps the un-suffixed name - copy i of a component that both consumes from "
+               "replicas and declares `replicate` no longer consumes from copy i, and the leftover reference names a component that does not "
+               "exist after expansion" % short(bad[0], 70), construct="for ref in <the component's own references>")
     for a in adds:
         extra = []
         for tn in cfg.nodes:
